@@ -226,3 +226,22 @@ package parser
 //@   atcall resolveConverters: {C06,C03} len(list) == len(entries)
 //@   loop 2 invariant $k <= len(allMethods)
 //@   loop 3 invariant $k <= len(method.Opts.Converters)
+//@
+//@ func (*Parser).CreateBuilder(p) (r)
+//@   ensures {C02} fresh(r) && r.file == p.file && r.fset == p.fset && r.pkg == p.pkg && r.imports == p.imports
+
+// ---- loading (C12, C14, C15) ---------------------------------------------------------------------------------------------------
+
+//@ func NewParser$1(fset, filename, src) (f, err)
+//@   effects fs-read, parsefile
+//@   assigns *parseErr, *fileSrc
+//@   atcall ParseFile: {C12} !sameFile(stat, *dstStat)
+//@   atcall ParseFile: {C12,C11} $arg3 == parser.ParseComments ==> sameFile(stat, *srcStat)
+//@
+//@ func NewParser(srcPath, dstPath) (p, e)
+//@   effects fs-read, parsefile, log
+//@   assigns boxes(*ast.File), boxes(error)
+//@   assume-after Load: *fileSrc != nil || *parseErr != nil
+//@   ensures {C12,C14} e == nil ==> p != nil && fresh(p) && wfP(p) && p.intfEntries == nil
+//@   ensures {C12,C14} e != nil ==> p == nil
+//@   check {C12,C03} e != nil ==> isFsErr(e) || hasPrefix(errmsg(e), srcPath + ": failed to load type information: \n") || errmsg(e) == srcPath + ": failed to load package information" || (*fileSrc == nil && *parseErr != nil && errmsg(e) == srcPath + ": " + fmt_v(*parseErr))
